@@ -66,6 +66,35 @@ fn reference(kind: &str, n: usize, m2: usize) -> UModel {
     UModel::from_pairs(order, &arcs)
 }
 
+/// complete(n) / biclique(m, n) of AdjacencyList (the threaded constructors) at
+/// parameters where the arc list runs into millions: verified row by row
+/// against the closed form without materialising the model.
+fn check_large_adjacency_list(c: &Case) -> Verdict {
+    use graaf::OutNeighbors;
+    let what = format!("AdjacencyList::{}({}, {})", c.kind, c.n, c.m2);
+    let d: AdjacencyList = guarded(|| make::<AdjacencyList>(&c.kind, c.n, c.m2)).map_err(|p| format!("{what} panicked: {p}"))?;
+    let (order, size) = if c.kind == "biclique" { (c.n + c.m2, 2 * c.n * c.m2) } else { (c.n, c.n * (c.n - 1)) };
+    ensure!(d.order() == order, "{what}: order() = {}, expected {order}", d.order());
+    ensure!(d.vertices().eq(0..order), "{what}: vertices() is not 0..{order}");
+    ensure!(d.size() == size, "{what}: size() = {}, expected {size}", d.size());
+    for u in 0..order {
+        let ok = if c.kind == "biclique" {
+            if u < c.n {
+                d.out_neighbors(u).eq(c.n..order)
+            } else {
+                d.out_neighbors(u).eq(0..c.n)
+            }
+        } else {
+            d.out_neighbors(u).eq((0..order).filter(|&v| v != u))
+        };
+        if !ok {
+            let row: Vec<usize> = d.out_neighbors(u).take(12).collect();
+            return Err(format!("{what}: row {u} is wrong (outdegree {}, starts {row:?})", d.out_neighbors(u).count()));
+        }
+    }
+    Ok(())
+}
+
 fn check_one<D: Gens>(c: &Case, name: &str) -> Result<Option<D>, String> {
     let what = format!("{name}::{}({}{})", c.kind, c.n, if c.kind == "biclique" { format!(", {}", c.m2) } else { String::new() });
     let r = guarded(|| make::<D>(&c.kind, c.n, c.m2));
@@ -83,7 +112,7 @@ impl Prop for C14 {
     type Case = Case;
     const ID: &'static str = "C14";
     const NUM: u64 = 14;
-    const RULE: &'static str = "enumerated, not sampled: every order 0..=96 (quick) / 0..=200 (thorough) for empty, complete, circuit, cycle, path, star, wheel under CPU counts {1,2,3,5,max} (thorough: every count 1..=max), every (m, n) in 0..=24 squared (thorough 0..=40 squared) for biclique, and trivial/claw/utility, in AdjacencyList, AdjacencyMap, AdjacencyMatrix, EdgeList (plus empty for AdjacencyListWeighted); inadmissible parameters (order 0, wheel order < 4, m or n = 0) must panic; a random leg adds orders up to 300 (thorough 600) at arbitrary CPU counts. Oracle: closed-form arc sets written from the property text. Non-trivial = order greater than the number of CPUs in the configuration, or order squared not a multiple of 64; distinct = distinct (generator, parameters, CPU count).";
+    const RULE: &'static str = "enumerated, not sampled: every order 0..=96 (quick) / 0..=200 (thorough) for empty, complete, circuit, cycle, path, star, wheel under CPU counts {1,2,3,5,max} (thorough: every count 1..=max), every (m, n) in 0..=24 squared (thorough 0..=40 squared) for biclique, and trivial/claw/utility, in AdjacencyList, AdjacencyMap, AdjacencyMatrix, EdgeList (plus empty for AdjacencyListWeighted); inadmissible parameters (order 0, wheel order < 4, m or n = 0) must panic; a random leg adds orders up to 300 (thorough 600) and 200..3100 at arbitrary CPU counts (complete capped at 700 there); a 'huge-al' leg checks AdjacencyList::complete(n) for n up to 2100 (1023..1025, 2047..2049, ...) and AdjacencyList::biclique(m, n) with m*n >= 2^16 row by row at 2..16 CPUs. Oracle: closed-form arc sets written from the property text. Non-trivial = order greater than the number of CPUs in the configuration, or order squared not a multiple of 64; distinct = distinct (generator, parameters, CPU count).";
     const ASSUMPTIONS: &'static [&'static str] = &["closed forms in harness/src/model.rs::closed_form are transcriptions of the property statement"];
 
     fn legs(tier: Tier) -> Vec<Leg> {
@@ -105,10 +134,33 @@ impl Prop for C14 {
                 workers: 16,
                 build: Build::Normal,
             },
+            Leg {
+                name: "huge-al",
+                kind: LegKind::Random {
+                    cases: tier.pick(3, 24),
+                },
+                workers: 16,
+                build: Build::Normal,
+            },
         ]
     }
 
-    fn strategy(_leg: &str, tier: Tier) -> BoxedStrategy<Case> {
+    fn strategy(leg: &str, tier: Tier) -> BoxedStrategy<Case> {
+        if leg == "huge-al" {
+            return prop_oneof![
+                (prop_oneof![
+                    2 => proptest::sample::select(vec![1023_usize, 1024, 1025, 1535, 1537, 2047, 2048, 2049]),
+                    1 => 700..=2100_usize,
+                ], 2..=16_usize)
+                    .prop_map(|(n, cpus)| Case { kind: "huge-al:complete".into(), n, m2: 0, cpus }),
+                (prop_oneof![
+                    1 => proptest::sample::select(vec![(307_usize, 509_usize), (101, 1000), (100, 1000), (256, 256), (257, 255), (64, 1024), (1025, 64)]),
+                    1 => (64..=600_usize, 110..=1100_usize),
+                ], 2..=16_usize)
+                    .prop_map(|((m, n), cpus)| Case { kind: "huge-al:biclique".into(), n: m, m2: n, cpus }),
+            ]
+            .boxed();
+        }
         (
             0..8_usize,
             prop_oneof![3 => 97..=tier.pick(300_usize, 600), 1 => 200..=3100_usize],
@@ -170,6 +222,16 @@ impl Prop for C14 {
     }
 
     fn check(c: &Case, obs: &mut Obs) -> Verdict {
+        if let Some(kind) = c.kind.strip_prefix("huge-al:") {
+            let inner = Case { kind: kind.to_string(), ..c.clone() };
+            let cpus = Cpus::new();
+            let (res, seen) = cpus.with(c.cpus, sys::rot(), || check_large_adjacency_list(&inner));
+            res?;
+            obs.label(format!("kind={}", c.kind));
+            obs.label(format!("cpus-seen={seen}"));
+            obs.nontrivial();
+            return Ok(());
+        }
         let cpus = Cpus::new();
         let (res, seen) = cpus.with(c.cpus, sys::rot(), || -> Verdict {
             let l = check_one::<AdjacencyList>(c, "AdjacencyList")?;
